@@ -294,10 +294,19 @@ class Monitor:
             if self.enabled and not inplace and _is_tt(res):
                 # identity aliasing: a call that is not one of the documented in-place operations hands back one of its own operands - every later
                 # in-place edit of the "result" is then an edit of the operand (and the other way round)
+                is_operand = False
                 for where, o in operands:
                     if res is o:
+                        is_operand = True
                         self.counters['imm_result_is_operand'] += 1
                         self._imm_report(op, 'result', where, o, ['result-is-the-operand-object'], [])
+                # ... or an object that already existed before the call (seen at an earlier quiescent point): a result handed out twice - an in-place edit of
+                # one "result" is an edit of the other, so the result obtained earlier does not keep its value
+                self.counters['imm_result_identity_checks'] += 1
+                ent = self.snaps.get(id(res))
+                if not is_operand and ent is not None and ent[0]() is res:
+                    self.counters['imm_result_is_earlier_object'] += 1
+                    self._imm_report(op, 'result', 'returned', res, ['result-is-an-object-handed-out-earlier'], [])
             return res
         except BaseException as e:
             if ev is not None:
